@@ -3,6 +3,8 @@
 package extendeddaemonsetreplicaset
 
 import (
+	"github.com/DataDog/extendeddaemonset/zzverif/fakeapi"
+	"strconv"
 	"time"
 
 	corev1 "k8s.io/api/core/v1"
@@ -159,4 +161,91 @@ func ZZ_C09_gateAfterFaults() {
 	nondet.Observe("podOps2", podOps2)
 	nondet.Reach("C09.faults.partial-failure", statusOK && podOps1 >= 1 && len(c.Writes()) > podOps1+1)
 	nondet.Reach("C09.faults.status-failed", !statusOK)
+}
+
+// ZZ_C09_requestsAtArbitraryTimes: "every sequence of reconcile requests arriving at arbitrary
+// times" — three (thorough: four) requests for the active replica set, the time between two
+// consecutive ones an arbitrary whole number of seconds in [0, 90], reconcileFrequency arbitrary in
+// [1, 60] s.  Three nodes run outdated available pods, a fourth has none; between requests the
+// kubelet catches up without time passing (deleted pods vanish, created pods become Ready), so every
+// sync has something to do.  Any two syncs that created or deleted pods are at least
+// reconcileFrequency apart (the stamps are written with the sync's own instant, so no resolution
+// slack is needed here), and in one sync at most maxUnavailable (1) pod is deleted for updating.
+func ZZ_C09_requestsAtArbitraryTimes() {
+	nReq := 3
+	if nondet.Thorough() {
+		nReq = 4
+	}
+	c, ds, rsNew, _ := zzStore(4)
+	ds.Status.ActiveReplicaSet = rsNew.Name
+	freq := nondet.Int("reconcileFrequencySec", 1, 60)
+	ds.Spec.Strategy.ReconcileFrequency = &metav1.Duration{Duration: time.Duration(freq) * time.Second}
+	for i := 0; i < 3; i++ {
+		c.Pods = append(c.Pods, zzPod("old-"+zzNodeName(i), zzNodeName(i), zzOldRS, zzHashOld, 0, corev1.PodRunning, true, nondet.Base().Add(-time.Hour)))
+	}
+	r := zzReconciler(c, false)
+	var at []int       // arrival time of each request, in seconds after the first
+	var touched []bool // did it create or delete a pod
+	now := 0
+	for q := 0; q < nReq; q++ {
+		if q > 0 {
+			gap := nondet.Int("gap"+strconv.Itoa(q), 0, 90)
+			now += gap
+			// `gap` seconds pass: everything stored gets older
+			for _, rs := range c.ERS {
+				for i := range rs.Status.Conditions {
+					cd := &rs.Status.Conditions[i]
+					cd.LastUpdateTime = metav1.NewTime(cd.LastUpdateTime.Add(-time.Duration(gap) * time.Second))
+					cd.LastTransitionTime = metav1.NewTime(cd.LastTransitionTime.Add(-time.Duration(gap) * time.Second))
+				}
+			}
+		}
+		from := len(c.Log)
+		_, err := zzReconcile(r, zzNS, rsNew.Name)
+		nondet.Assert("C09.requests.noerror", err == nil)
+		creates, deletes := 0, 0
+		for _, e := range c.Log[from:] {
+			if e.Kind == "Pod" && e.Verb == "create" {
+				creates++
+			}
+			if e.Kind == "Pod" && e.Verb == "delete" {
+				deletes++
+			}
+		}
+		nondet.Assert("C09.requests.at-most-maxUnavailable-deleted", deletes <= 1)
+		at = append(at, now)
+		touched = append(touched, creates+deletes > 0)
+		// the kubelet catches up, no time passes
+		var kept []*corev1.Pod
+		for _, p := range c.Pods {
+			if p.DeletionTimestamp != nil {
+				continue
+			}
+			if p.Spec.NodeName == "" {
+				p.Spec.NodeName = fakeapi.PodNode(p)
+			}
+			p.Status.Phase = corev1.PodRunning
+			if len(p.Status.Conditions) == 0 {
+				p.Status.Conditions = []corev1.PodCondition{{Type: corev1.PodReady, Status: corev1.ConditionTrue}}
+			}
+			kept = append(kept, p)
+		}
+		c.Pods = kept
+	}
+	for i := 0; i < nReq; i++ {
+		for j := i + 1; j < nReq; j++ {
+			if touched[i] && touched[j] {
+				nondet.Assert("C09.requests.pod-syncs-spaced", at[j]-at[i] >= freq)
+			}
+		}
+	}
+	nTouched := 0
+	for _, t := range touched {
+		if t {
+			nTouched++
+		}
+	}
+	nondet.Observe("touchingSyncs", nTouched)
+	nondet.Reach("C09.requests.two-touching-syncs", nTouched >= 2)
+	nondet.Reach("C09.requests.a-request-was-postponed", nTouched < nReq)
 }
